@@ -74,6 +74,8 @@ func gen(args []string) {
 		genExprPos(w, tier, r)
 	case "TYPE":
 		genType(w, tier, r)
+	case "DML": // Task S (harness/dmlchan.go)
+		genDML(w, tier, r)
 	case "QUERY": // Task X (harness/querychan.go)
 		genQuery(w, tier, r)
 	case "HANDLER":
